@@ -103,6 +103,30 @@ func Harness_C14_logs() {
 	VerifCover("done")
 }
 
+// Harness_C14_loglimits: reflog entries, like refs, carry update indices inside the range the header declares.
+// bounds: limits [lo, hi] with lo, hi in 0..3, lo <= hi; one reflog entry whose update index is any of 0..4; BlockSize 160, Unaligned both
+// covers: done
+func Harness_C14_loglimits() {
+	cfg := Config{BlockSize: 160, Unaligned: VerifChoose(2) == 1}
+	lo := uint64(VerifChoose(4))
+	hi := lo + uint64(VerifChoose(4))
+	if hi > 3 {
+		return
+	}
+	idx := uint64(VerifChoose(5))
+	l := &LogRecord{RefName: "a", UpdateIndex: idx, Time: 3, New: hashWith(20, 1, 1), Old: hashWith(20, 0, 0), Message: "m\n"}
+	data, ok := writeTable(cfg, lo, hi, nil, []*LogRecord{l})
+	if ok {
+		t := specDecodeTable(data)
+		VerifAssert(t.ok && t.min == lo && t.max == hi, "wf-decodes")
+		specCompare(data, cfg, nil, []*LogRecord{l})
+		VerifAssert(idx >= lo && idx <= hi, "log-update-index-outside-header-range")
+	} else {
+		VerifAssert(idx < lo || idx > hi, "log-inside-limits-refused")
+	}
+	VerifCover("done")
+}
+
 // Harness_C14_shapes: shaped tables (multi-level indexes, object index, log index, padding) are well-formed.
 // bounds: the shapes of Harness_C01_table_shapes (6 quick, 8 thorough) plus a table of 44 refs sharing 3 object ids (position lists of 9..20 entries in the object index)
 // covers: done
